@@ -73,10 +73,27 @@ fn limit_shapes(ty: &Ty) -> Vec<(&'static str, Option<LVal>, Option<LVal>)> {
 }
 
 fn stored_values(ty: &Ty, thorough: bool) -> Vec<Val> {
+    stored_values_deep(ty, thorough, false)
+}
+
+/// `deep` (thorough tier): every value of ranges up to 2^16 + 1, 5000 grid points of wider ranges,
+/// every f32 whose low 16 mantissa bits are zero (a 65536-point lattice over the whole type)
+fn stored_values_deep(ty: &Ty, thorough: bool, deep: bool) -> Vec<Val> {
     match ty {
         Ty::Int { min, max } | Ty::Scaled { min, max, .. } => {
             let mk = |x: i64| if matches!(ty, Ty::Int { .. }) { Val::Int(x) } else { Val::Scaled(x) };
             let range = *max as i128 - *min as i128;
+            if deep && range > 4096 {
+                let mut v: Vec<i64> = crate::cat::int_values(*min, *max);
+                if range <= 65537 {
+                    v.extend((0..=range).map(|o| (*min as i128 + o) as i64));
+                } else {
+                    v.extend((0..5000i128).map(|k| (*min as i128 + range * k / 4999) as i64));
+                }
+                v.sort();
+                v.dedup();
+                return v.into_iter().map(mk).collect();
+            }
             if range <= 4096 {
                 (0..=range).map(|o| mk((*min as i128 + o) as i64)).collect()
             } else {
@@ -93,6 +110,9 @@ fn stored_values(ty: &Ty, thorough: bool) -> Vec<Val> {
             let (lo, hi) = (min.unwrap_or(f32::MIN), max.unwrap_or(f32::MAX));
             let mut v = vec![lo, hi, f32::from_bits(lo.to_bits().wrapping_add(1)), f32::from_bits(hi.to_bits().wrapping_sub(1)), lo * 0.5 + hi * 0.5, 0.0, -0.0, 1.0, -1.0, f32::MIN, f32::MAX, f32::MIN_POSITIVE];
             v.extend(crate::cat::f32_lattice().into_iter().filter(|x| x.is_finite()));
+            if deep {
+                v.extend((0..=u16::MAX).map(|h| f32::from_bits((h as u32) << 16)));
+            }
             v.retain(|x| x.is_finite());
             v.into_iter().map(Val::F32).collect()
         }
@@ -171,7 +191,7 @@ pub fn normalise(ctx: &Ctx) {
             proto.push(rec(n, if k + 1 == attr { ty.clone() } else { Ty::Int { min: 0, max: 255 } }));
         }
     }
-    let vals = stored_values(&ty, true);
+    let vals = stored_values_deep(&ty, true, ctx.tier_thorough);
     let points: Vec<Vec<Val>> = vals
         .iter()
         .map(|v| {
@@ -326,11 +346,15 @@ pub fn normalise(ctx: &Ctx) {
 /// normalisation switched on after the iteration has started: the values of the last of three
 /// packets (decoded after the switch) must be normalised like on an iterator configured up front
 pub fn late_switch(ctx: &Ctx) {
-    let tys = [Ty::Int { min: 0, max: 255 }, Ty::Int { min: 0, max: 65535 }, Ty::F32 { min: Some(0.0), max: Some(1.0) }, Ty::Scaled { min: 0, max: 4095, scale: 0.25, offset: 0.0 }];
+    let tys: Vec<Ty> = if ctx.tier_thorough {
+        attr_types()
+    } else {
+        vec![Ty::Int { min: 0, max: 255 }, Ty::Int { min: 0, max: 65535 }, Ty::F32 { min: Some(0.0), max: Some(1.0) }, Ty::Scaled { min: 0, max: 4095, scale: 0.25, offset: 0.0 }]
+    };
     let ti = ctx.pick("type", tys.len());
     let attr = ctx.pick("attribute", 4);
     let first_setting = ctx.pick("initial-setting", 2) == 1;
-    let consumed = [1usize, 4][ctx.pick("points-before-switch", 2)];
+    let consumed = if ctx.tier_thorough { ctx.pick("points-before-switch", 41) } else { [1usize, 4][ctx.pick("points-before-switch", 2)] };
     let ty = tys[ti].clone();
     let names = ["intensity", "colorRed", "colorGreen", "colorBlue"];
     let mut proto = xyz(F32);
@@ -343,6 +367,9 @@ pub fn late_switch(ctx: &Ctx) {
     }
     let vals: Vec<Val> = stored_values(&ty, false).into_iter().take(60).collect();
     let n = vals.len();
+    if consumed > n / 3 {
+        return; // the switch must come before the third packet is decoded
+    }
     let points: Vec<Vec<Val>> = vals
         .iter()
         .map(|v| {
